@@ -254,6 +254,15 @@ theorem doStep_ok (hR : RLocal R) (s : St) (i : Inv s) (hout : s.out = []) (op :
     simp only [doStep]
     exact o0.same R rfl rfl rfl rfl rfl rfl rfl rfl rfl rfl
 
+theorem finishInline_ret (s : St) (cu : Bool) (f0 f : Nat) (h : (finishInline R cu s f0).2 = .fut f) : f = f0 := by
+  unfold finishInline at h
+  split at h
+  · simp at h; exact h.symm
+  · split at h
+    · simp at h; exact h.symm
+    · simp at h
+  · simp at h
+
 /-! ### runs -/
 
 /-- the table `T` of registered requests covers state `s` -/
